@@ -586,6 +586,42 @@ def raw_plan(b, cmds, meta, obs, seed, cap):
                 merged[mp["attr"]] = "abc"
                 out_c.append({"op": "raw", "script": script, "raw": {"method": w["method"], "target": w.get("path", "/") + "?" + urlencode(q3), "headers": headers, "body": w.get("body") or ""}})
                 out_m.append((s, m, "request", "raw/query-wrong-type", merged, locs, False))
+        # headers and cookies: drop each one, corrupt numbers (a request decoder reads every location its own way)
+        for loc_key, lab in (("headers", "header"), ("cookies", "cookie")):
+            for mp in (m["http"].get(loc_key) or []):
+                wire = mp.get("wire") or mp["attr"]
+                att = fields.get(mp["attr"])
+                if att is None:
+                    continue
+                sent = transmitted(b.schema, m["payload"], val, locs)
+                if lab == "header":
+                    hk = [k for k in headers if k.lower() == wire.lower()]
+                    if not hk:
+                        continue
+                    variants = [("dropped", {k: v for k, v in headers.items() if k not in hk}),
+                                ("wrong-type", {k: (["abc"] if k in hk else v) for k, v in headers.items()})]
+                else:
+                    ck = [k for k in headers if k.lower() == "cookie"]
+                    jar = [x.split("=", 1) for v in (headers.get(ck[0]) if ck else []) for x in v.split("; ") if "=" in x]
+                    if not any(k == wire for k, _ in jar):
+                        continue
+
+                    def with_jar(j):
+                        h2 = {k: v for k, v in headers.items() if k not in ck}
+                        if j:
+                            h2["Cookie"] = ["; ".join("%s=%s" % (k, v) for k, v in j)]
+                        return h2
+                    variants = [("dropped", with_jar([(k, v) for k, v in jar if k != wire])),
+                                ("wrong-type", with_jar([(k, "abc" if k == wire else v) for k, v in jar]))]
+                p = b.schema.resolve(att).get("type", {}).get("prim")
+                for vname, h2 in variants:
+                    merged = {k: v for k, v in sent.items() if k != mp["attr"]}
+                    if vname == "wrong-type":
+                        if not (p in e2e.INT_RANGES or p in ("Float32", "Float64", "Boolean")):
+                            continue
+                        merged[mp["attr"]] = "abc"
+                    out_c.append({"op": "raw", "script": script, "raw": {"method": w["method"], "target": target, "headers": h2, "body": w.get("body") or ""}})
+                    out_m.append((s, m, "request", "raw/%s-%s" % (lab, vname), merged, locs, False))
     return out_c, out_m
 
 
@@ -693,7 +729,7 @@ def judge(side, label, verdict, o, b, m, val, locs, typed):
         if rejected and o.get("server_called"):
             loc = label.split("/")[0]
             if loc == "raw":
-                loc = "query" if "query" in label else "body"
+                loc = "query" if "query" in label else "header" if "header" in label else "cookie" if "cookie" in label else "body"
             # which top-level attribute differs from a valid value is not tracked: any site of that location
             attrs = [a for a, l in locs.items() if l == loc] or [None]
             if names == ["invalid_range"] and ("exmax-with-exmin" in label or exmax_with_exmin_site(b.schema, att, sent)):
